@@ -124,7 +124,7 @@ func (r Promise[T]) dispatchOrAddCallback(cb onCompleteFunc[T]) {
 
 	case []onCompleteFunc[T]:
 		verifhook.Yield("append")
-		if r.status.CompareAndSwap(ap, append(status, cb)) {
+		if r.status.CompareAndSwap(ap, append(status[:len(status):len(status)], cb)) {
 			return
 		}
 		r.dispatchOrAddCallback(cb)
